@@ -7,6 +7,7 @@ Two kinds of cases:
   kind "keys" : a real PromptSession driven key by key (emacs: C-r C-s Up Down Enter Esc C-g C-c,
                 vi: / ? C-r C-s n N with counts), observed after every key, including the Document that
                 BufferControl.create_content displays (the incremental-search preview)
+  kind "motion": oracle only — Vi `n` / `N` used as a motion (`v n`, `d n`: get_search_position end to end)
 """
 from __future__ import annotations
 
@@ -73,7 +74,9 @@ PARTIAL_SCOPE = ["Document.find/find_backwards with in_current_line=True or coun
                  "accepting with an EMPTY search field re-applies the previous needle while the preview shows the "
                  "unmoved document (needle empty: outside the property's quantifier); modelled as is",
                  "selection kept/dropped by document_for_search, search-field history, multiple BufferControls sharing "
-                 "one search field, emacs read-only n/N bindings, vi * and # are not modelled"]
+                 "one search field, emacs read-only n/N bindings, vi * and # are not modelled",
+                 "Vi `n`/`N` as a motion after an operator / in visual mode: get_search_position is modelled and proved, "
+                 "the selection / deletion around it is exercised by the oracle only (single-line entries for `d`)"]
 TECHNIQUE = "lean-proof+correspondence"
 ANCHORS = ["src/prompt_toolkit/buffer.py", "src/prompt_toolkit/document.py", "src/prompt_toolkit/search.py",
            "src/prompt_toolkit/key_binding/bindings/search.py", "src/prompt_toolkit/layout/controls.py"]
@@ -346,8 +349,22 @@ def ahead(lines, w, c, sub, ic, d, incl):
     return res
 
 
-def check_move(site, lines, w, c, sub, ic, d, incl, count, nw, nc):
-    """the C16 statement for one applied search that took (w, c) to (nw, nc)"""
+def vifix_text(t, c):
+    """Vi navigation mode: the cursor does not rest behind the last character of a non-empty line"""
+    a = t.rfind("\n", 0, c) + 1
+    e = t.find("\n", c)
+    e = len(t) if e < 0 else e
+    return c - 1 if (c == e and e > a) else c
+
+
+def vifix(lines, w, c):
+    return vifix_text(lines[w], c)
+
+
+def check_move(site, lines, w, c, sub, ic, d, incl, count, nw, nc, vi_fix=False):
+    """the C16 statement for one applied search that took (w, c) to (nw, nc).
+    vi_fix: the key returns to Vi navigation mode, where an unmoved cursor that sits behind the last
+    character of a line is pulled back by one (not a search move)."""
     v = []
 
     def bad(cond, msg):
@@ -358,15 +375,18 @@ def check_move(site, lines, w, c, sub, ic, d, incl, count, nw, nc):
     if not (0 <= nw < len(lines) and 0 <= nc <= len(lines[nw])):
         bad("position out of range", "result outside the history / text")
         return v
-    moved = (nw, nc) != (w, c)
+    stays = {(w, c)}
+    if vi_fix:
+        stays.add((w, vifix(lines, w, c)))
+    moved = (nw, nc) not in stays
     if moved and nc not in occs(lines[nw], sub, ic):
         bad("lands where the needle does not occur", "moved to a position without an occurrence")
     if sub and count == 1:
         a = ahead(lines, w, c, sub, ic, d, incl)
-        if a:
-            if (nw, nc) == (w, c) and (w, c) != a[0]:
+        if a and (nw, nc) != a[0]:
+            if not moved:
                 bad("occurrence ahead not found", "an occurrence lies ahead but the position did not change")
-            elif (nw, nc) != a[0]:
+            else:
                 bad("skips a nearer occurrence", f"nearest occurrence ahead is {a[0]}")
     return v
 
@@ -444,15 +464,6 @@ def oracle_api(case):
     return v
 
 
-def vifix(lines, w, c):
-    """Vi navigation mode: the cursor does not rest behind the last character of a non-empty line"""
-    t = lines[w]
-    a = t.rfind("\n", 0, c) + 1
-    e = t.find("\n", c)
-    e = len(t) if e < 0 else e
-    return c - 1 if (c == e and e > a) else c
-
-
 def oracle_keys(case):
     v = []
     ic, vi = case["ic"], case["vi"]
@@ -479,13 +490,14 @@ def oracle_keys(case):
             bad("start/abort moved the cursor", "start/abort changed the searched buffer")
         if name == "accept" and o0["searching"]:
             if o0["field"]:
-                # what was shown is where accepting goes
-                if o0["shown"] != (o1["lines"][o1["widx"]], o1["cur"]):
+                # what was shown is where accepting goes (Vi: then the navigation-mode cursor fix)
+                exp = o0["shown"] if not vi else (o0["shown"][0], vifix_text(*o0["shown"]))
+                if exp != (o1["lines"][o1["widx"]], o1["cur"]):
                     bad("preview differs from accept", "displayed preview != position after accepting")
                 if o1["shown"] != (o1["lines"][o1["widx"]], o1["cur"]):
                     bad("display after accept", "after accepting the real document must be displayed")
                 v.extend(check_move(tag, o0["lines"], o0["widx"], o0["cur"], o0["field"], ic, o0["sdir"], 1, 1,
-                                    o1["widx"], o1["cur"]))
+                                    o1["widx"], o1["cur"], vi_fix=bool(vi)))
             if o1["searching"]:
                 bad("still searching", "accept did not leave the search field")
         if name == "incr" and o0["searching"] and o0["sdir"] == op[1]:
@@ -496,7 +508,7 @@ def oracle_keys(case):
         if name in ("next", "prev") and not o0["searching"]:
             d = o0["sdir"] if name == "next" else (B if o0["sdir"] == F else F)
             v.extend(check_move(tag, o0["lines"], o0["widx"], o0["cur"], o0["stext"], ic, d, 0, int(op[1]),
-                                o1["widx"], o1["cur"]))
+                                o1["widx"], o1["cur"], vi_fix=True))
         if not o1["searching"] and o1["shown"] != (o1["lines"][o1["widx"]], o1["cur"]):
             bad("display when not searching", "the real document must be displayed when not searching")
     return v
@@ -685,7 +697,7 @@ KEY_ALPHA = ["a", "a", "b", "A", ".", "*", " ", "n", "/"]
 
 
 def random_keys(tier, rng):
-    n = 700 if tier == "quick" else 30000
+    n = 700 if tier == "quick" else 16000
     for _ in range(n):
         vi = rng.random() < 0.5
         ic = rng.random() < 0.4
@@ -746,7 +758,7 @@ def motion_cases(tier, rng):
                             for key in ("n", "N"):
                                 yield {"kind": "motion", "ic": 0, "lines": lines, "widx": w, "cur": c, "sub": sub,
                                        "dir": d, "op": op, "key": key, "count": 1}
-    n = 150 if tier == "quick" else 4000
+    n = 150 if tier == "quick" else 2000
     for _ in range(n):
         ic = rng.random() < 0.3
         alpha = ["a", "a", "b", "A", "\n", " ", "."]
